@@ -5,6 +5,7 @@ package c03
 
 import (
 	"fmt"
+	"path/filepath"
 	"math/rand"
 	"os"
 	"sort"
@@ -64,6 +65,17 @@ func partialCommitEntry(img map[string][]byte, full map[string][]byte) bool {
 }
 
 // final: the files as the OS saw them at the end of the traced run (every write complete)
+// ahtEntries: number of complete entries in the hash tree's commit log of an image
+func ahtEntries(img map[string][]byte) uint64 {
+	var n uint64
+	for name, b := range img {
+		if strings.HasPrefix(filepath.ToSlash(name), "aht/commit/") {
+			n += uint64((len(b) - headerLen(b)) / 12)
+		}
+	}
+	return n
+}
+
 func annotate(v string, cfg Cfg, img map[string][]byte, final map[string][]byte) string {
 	if cfg.Prealloc && strings.HasPrefix(v, "open fails after the crash") && partialCommitEntry(img, final) {
 		return "PreallocFiles: the last commit-log entry is partially written and taken as committed: " + v
@@ -340,6 +352,9 @@ func runJob(w *Workload, j job, b Budget, rng *rand.Rand, st *Stats, report func
 					}
 				}
 				for _, v := range r3.Viol {
+					if strings.Contains(v, "(the hash tree holds a stale leaf)") && ahtEntries(j.img) > res.Cid0+res.Reloaded {
+						v += " [tree fsynced ahead of the tx log before the first crash, rewound in memory only]"
+					}
 					report("after a second crash: "+annotate(v, w.Cfg, img, final2), fmt.Sprintf("%s >> recovery+%d fresh commit(s) >> point2=%d(after %s %s) image2=%s acked<=%d",
 						where, len(res.Fresh), p, evs2[p-1].Kind, evs2[p-1].Log, pol, acked2))
 				}
